@@ -330,6 +330,10 @@ var entryPoints = []entryPoint{
 	{"list.SetTF-through-padding", func(v any) slot {
 		return slot{l: at.NewList().SetTF("#2.x", 1).SetTF("#1#0", v).GetList(1), idx: 0}
 	}},
+	{"NewList-the-value-three-times", func(v any) slot { return slot{l: at.NewList(v, v, v), idx: 2} }},
+	{"Add-the-value-twice", func(v any) slot { return slot{l: at.NewList(0).Add(v, v), idx: 1} }},
+	{"Insert-next-to-itself", func(v any) slot { return slot{l: at.NewList(v).Insert(0, v).Insert(1, v), idx: 1} }},
+	{"Set-the-value-under-two-keys", func(v any) slot { return slot{o: at.NewObject().Set("a", v, "b", v), key: "b"} }},
 	{"NewListOf-no-copies-then-Add", func(v any) slot {
 		l := at.NewListOf(v, 0)
 		l.Add(v)
